@@ -2,10 +2,13 @@
    External behaviour (net.ParseIP, net.ResolveIPAddr, IP.String, regexp matching) is universally
    quantified; what is assumed about Go's net package appears as explicit hypotheses. *)
 From CJ Require Import Common.Base C06.Model C06.Proofs C06.IPText C06.IPTextProofs C07.Model C06.Dialed.
+From CJ Require C06.ModelIngest C06.ProofsIngest.
+Module MI := CJ.C06.ModelIngest.
 
 (* An accepted covert string is the literal text of the single address the resolver returned for
    its host; that address is a real IP, not blocked by policy (inside the allowlist when one is
-   configured), the host matched no blocklisted domain pattern, the port is a decimal <= 65535. *)
+   configured), the host matched no blocklisted domain pattern, the port is a decimal <= 65535, and an
+   address with an IPv4 form carries no zone (its text would not be an address literal; fix 3ada542). *)
 Theorem C06_accepted_is_checked_literal :
   forall parse_ip resolve ip_str re_match pol s out lk,
     parse_or_resolve parse_ip resolve ip_str re_match pol s = (Some out, lk) ->
@@ -18,7 +21,8 @@ Theorem C06_accepted_is_checked_literal :
       valid_ip a = true /\
       blocked pol a = false /\
       out = join_host_port (ip_text ip_str a z) port /\
-      lk = (match parse_ip host with None => true | Some _ => false end).
+      lk = (match parse_ip host with None => true | Some _ => false end) /\
+      zoned_v4 a z = false.
 Proof. exact accepted_is_checked_literal. Qed.
 Print Assumptions C06_accepted_is_checked_literal.
 
@@ -27,7 +31,7 @@ Theorem C06_rejected_when_forbidden :
   forall parse_ip resolve ip_str re_match pol s host port,
     split_host_port s = Some (host, port) ->
     (dom_blocked re_match pol host = true \/ port_ok port = false \/ resolve host = None \/
-     (exists a z, resolve host = Some (a, z) /\ (valid_ip a = false \/ blocked pol a = true))) ->
+     (exists a z, resolve host = Some (a, z) /\ (valid_ip a = false \/ blocked pol a = true \/ zoned_v4 a z = true))) ->
     fst (parse_or_resolve parse_ip resolve ip_str re_match pol s) = None.
 Proof. exact rejected_when_forbidden. Qed.
 Print Assumptions C06_rejected_when_forbidden.
@@ -246,3 +250,66 @@ Theorem C06_history_accepted_under_current_policy :
       blocked (policy_after pol pre) a = false /\ out = join_host_port (ip_text ip_str a z) port.
 Proof. exact history_accepted_under_current_policy. Qed.
 Print Assumptions C06_history_accepted_under_current_policy.
+
+(* ------------------------------------------------------------------ every path to the dial (ModelIngest.v)
+   Histories of ingests (new registrations and duplicates with ANY field changed), configuration reloads,
+   incoming connections (wrapping transports: the lookup returns the tracked valid object) and expiries on one
+   RegistrationManager, for wrapping and connecting transports; the name system may answer differently at every step.
+   A registration object carries its covert string; MI.EConnect / MI.EDial record the string of the object handed over. *)
+
+(* Every object handed to ConnectingTransport.Connect and every string handed to net.Dial is the result the
+   policy function returned for a registration of that key, ingested at an earlier step m, under the policy in force
+   at step m and with the name system of step m (names are resolved once, at admission). *)
+Theorem C06_handoffs_carry_admitted_literal :
+  forall parse_ip resolve_at ip_str re_match pol ops i x k c,
+    In (i, x) (snd (MI.run parse_ip resolve_at ip_str re_match pol 0 [] ops)) ->
+    (x = MI.EDial k c \/ x = MI.EConnect k c) ->
+    exists m, (m <= i)%nat /\
+      exists pre r ok post lk,
+        ops = pre ++ MI.IIngest r ok :: post /\ m = (0 + length pre)%nat /\ MI.g_key r = k /\
+        parse_or_resolve parse_ip (resolve_at m) ip_str re_match (MI.policy_after_i pol pre) (MI.g_covert r) = (Some c, lk).
+Proof. exact ProofsIngest.handoffs_admitted. Qed.
+Print Assumptions C06_handoffs_carry_admitted_literal.
+
+(* The same down to the dial site, with the concrete text functions: the dialled string is the literal host:port of
+   the single address resolved at admission, which the policy in force then permitted (subnets and domain patterns,
+   16-bit port), and net.Dial of it — in ANY later state of the name system — reaches that address and that port. *)
+Theorem C06_every_dial_is_checked :
+  forall (names_at : nat -> bytes -> option (ipraw * bytes)) names_later re_match pol0 ops i k c,
+    (forall m, zone_law (resolve_with (names_at m))) -> (forall m, resolver_wf (resolve_with (names_at m))) ->
+    In (i, MI.EDial k c) (snd (MI.run parse_ip_c (fun m => resolve_with (names_at m)) ip_str_c re_match pol0 0 [] ops)) ->
+    exists pre r ok post host port a z a',
+      ops = pre ++ MI.IIngest r ok :: post /\ (length pre <= i)%nat /\ MI.g_key r = k /\
+      split_host_port (MI.g_covert r) = Some (host, port) /\ port_ok port = true /\
+      dom_blocked re_match (MI.policy_after_i pol0 pre) host = false /\
+      resolve_with (names_at (length pre)) host = Some (a, z) /\ valid_ip a = true /\
+      blocked (MI.policy_after_i pol0 pre) a = false /\
+      c = join_host_port (ip_text ip_str_c a z) port /\
+      dial_target (resolve_with names_later) c = Some (a', z, port) /\
+      norm a' = norm a /\ blocked (MI.policy_after_i pol0 pre) a' = false.
+Proof. exact ProofsIngest.every_dial_checked_concrete. Qed.
+Print Assumptions C06_every_dial_is_checked.
+
+(* A repeated registration (same key) changes nothing in the table and triggers no hand-off, whatever its covert
+   string, kind or flags say. *)
+Theorem C06_duplicate_is_inert :
+  forall parse_ip resolve_at ip_str re_match pol n st r ok,
+    MI.find_entry st (MI.g_key r) <> None -> MI.ingest parse_ip resolve_at ip_str re_match pol n st r ok = (st, []).
+Proof. exact ProofsIngest.duplicate_inert. Qed.
+Print Assumptions C06_duplicate_is_inert.
+
+(* The object lookups return for a key — and with it the covert that is dialled — stays the same across duplicates,
+   other registrations, reloads and connections, until the sweeper removes it ... *)
+Theorem C06_tracked_object_stable :
+  forall parse_ip resolve_at ip_str re_match ops pol n st k e,
+    MI.find_entry st k = Some e -> (forall k', In (MI.IExpire k') ops -> k' <> k) ->
+    MI.find_entry (snd (fst (MI.run parse_ip resolve_at ip_str re_match pol n st ops))) k = Some e.
+Proof. exact ProofsIngest.tracked_stable. Qed.
+Print Assumptions C06_tracked_object_stable.
+
+(* ... after which the registration is new again and goes through the check under the policy then in force. *)
+Theorem C06_expired_is_untracked :
+  forall parse_ip resolve_at ip_str re_match pol n st k,
+    MI.find_entry (snd (fst (MI.step parse_ip resolve_at ip_str re_match pol n st (MI.IExpire k)))) k = None.
+Proof. exact ProofsIngest.expired_is_untracked. Qed.
+Print Assumptions C06_expired_is_untracked.
